@@ -104,6 +104,10 @@ def run_one(ck, prog):
                     for f in ctx.edge_facts(e):
                         if f[0] == "cmp" and any(mentions(x, ctx.prov, lambda z: z[0] == "bin" and z[1] == "BitAnd" and (fold(z[3]) == 1024 or fold(z[2]) == 1024 or mentions(z, ctx.prov, lambda w: w[0] == "const" and w[2] and "SQE128" in w[2]))) for x in (f[2], f[3])):
                             return True
+                        # the same bit asked through the flags type: flags.contains(IORING_SETUP_SQE128)
+                        if f[0] == "truth" and isinstance(f[1], tuple) and f[1][0] == "call" and (f[1][1] or "").endswith("::contains") and \
+                                any(fold(a) == 1024 or mentions(a, ctx.prov, lambda w: w[0] == "const" and ((w[2] and "SQE128" in w[2]) or w[1] == 1024)) for a in f[1][2][1:]):
+                            return True
             return False
         ck.ob("C18.2", "sqe128-test-on-both-sides", sqe128(dc) and sqe128(sc), fn=d["path"], detail="set-up and Drop must compute the SQE size with the same IORING_SETUP_SQE128 (1 << 10) test")
     # set-up stores the sizes it mapped
@@ -253,6 +257,22 @@ def check_index_array(ck, prog, rule):
             requested = mentions(hi, sc.prov, lambda z: z[0] == "param") and not from_kernel
             ok = fold(lo) == 0 and from_kernel and not requested
             why = f"the loop runs over {show(lo)}..{show(hi)}"
+        if not ranges:
+            # the same loop written with a counter: `let mut i = 0; while i < entries { ..; i += 1 }`
+            from ..engine import panics as _panics
+            idx = strip_casts(a[1])
+            defs = list(sc.prov.expand(idx)) if isinstance(idx, tuple) and idx[0] == "var" else []
+            starts0 = any(fold(d) == 0 for d in defs)
+            steps1 = any(isinstance(strip_casts(d), tuple) and strip_casts(d)[0] == "bin" and strip_casts(d)[1] in ("Add", "AddWithOverflow", "AddUnchecked") and 1 in (fold(strip_casts(d)[2]), fold(strip_casts(d)[3])) and
+                         canon(idx) in (canon(strip_casts(strip_casts(d)[2])), canon(strip_casts(strip_casts(d)[3]))) for d in defs)
+            for f in _panics.dominating_facts(sc, bb):
+                if f[0] == "cmp" and f[1] == "Lt" and canon(strip_casts(f[2])) == canon(idx) and len(defs) == 2 and starts0 and steps1:
+                    hi = f[3]
+                    from_kernel = mentions(hi, sc.prov, lambda z: z[0] == "call" and (z[1] or "").endswith("value_at_offset") and len(z[2]) > 1 and
+                                           mentions(z[2][1], sc.prov, lambda w: w[0] == "field" and w[2] == "ring_entries" and mentions(w[1], sc.prov, lambda v: v[0] == "field" and v[2] == "sq_off")))
+                    requested = mentions(hi, sc.prov, lambda z: z[0] == "param") and not from_kernel
+                    ok = from_kernel and not requested
+                    why = f"the loop counts from 0 while below {show(hi)}"
         identity = canon(strip_casts(a[1])) == canon(strip_casts([z for z in walk_deep(a[0], sc.prov, limit=200) if z[0] == "call" and (z[1] or "").endswith("::add")][0][2][1])) if any(z[0] == "call" and (z[1] or "").endswith("::add") for z in walk_deep(a[0], sc.prov, limit=200)) else False
         ck.ob(rule, "setup|index-array-covers-the-kernels-ring", ok, fn=su["path"], site=sc.site(bb),
               detail=f"{why}; it must cover 0..(ring_entries read from the mapped submission ring): the kernel rounds the requested size up, slots beyond the requested count would keep index 0 (their operations never run, entry 0 runs twice)")
